@@ -284,3 +284,575 @@ Proof.
   - destruct ((c =? 196) && (c2 =? 176)); [discriminate|]. destruct ((c =? 197) && (c2 =? 191)); [discriminate|].
     destruct ((c =? 226) && (c2 =? 132) && (c3 =? 170)); discriminate.
 Qed.
+
+(* ================================================================ generated tables = documented tables *)
+(* Re-checked on every run against coq/Gen/C16Colors.v, i.e. against the tables of the linked d2. *)
+Lemma named_colors_doc : same_set named_colors doc_named_colors = true.
+Proof. vm_compute. reflexivity. Qed.
+Lemma shapes_doc : same_set shapes doc_shapes = true.
+Proof. vm_compute. reflexivity. Qed.
+Lemma arrowheads_doc : same_set arrowheads doc_arrowheads = true.
+Proof. vm_compute. reflexivity. Qed.
+Lemma fill_patterns_doc : same_set fill_patterns doc_fill_patterns = true.
+Proof. vm_compute. reflexivity. Qed.
+Lemma text_transforms_doc : same_set text_transforms doc_text_transforms = true.
+Proof. vm_compute. reflexivity. Qed.
+Lemma fonts_doc : same_set fonts doc_fonts = true.
+Proof. vm_compute. reflexivity. Qed.
+Lemma directions_doc : same_set directions doc_directions = true.
+Proof. vm_compute. reflexivity. Qed.
+Lemma theme_ids_doc :
+  forallb (fun z => existsb (Z.eqb z) doc_theme_ids) theme_ids &&
+  forallb (fun z => existsb (Z.eqb z) theme_ids) doc_theme_ids = true.
+Proof. vm_compute. reflexivity. Qed.
+
+Lemma doc_tables_ascii :
+  ascii_table doc_named_colors && ascii_table doc_shapes && ascii_table doc_arrowheads &&
+  ascii_table doc_fill_patterns && ascii_table doc_text_transforms && ascii_table doc_fonts &&
+  ascii_table doc_directions = true.
+Proof. vm_compute. reflexivity. Qed.
+
+Lemma existsb_Zeqb_In z l : existsb (Z.eqb z) l = true <-> In z l.
+Proof.
+  rewrite existsb_exists. split.
+  - intros (x & Hx & E). apply Z.eqb_eq in E. subst. exact Hx.
+  - intro H. exists z. split; [exact H | apply Z.eqb_refl].
+Qed.
+
+Lemma theme_ids_In z : In z theme_ids <-> In z doc_theme_ids.
+Proof.
+  pose proof theme_ids_doc as H. apply andb_prop in H as [H1 H2].
+  rewrite forallb_forall in H1, H2. split; intro Hz.
+  - apply existsb_Zeqb_In. apply H1. exact Hz.
+  - apply existsb_Zeqb_In. apply H2. exact Hz.
+Qed.
+
+(* membership in a generated table = spelling a documented word *)
+Lemma table_spec gen doc v :
+  same_set gen doc = true -> ascii_table doc = true ->
+  (mem_word (go_lower v) gen = true <-> SpellsOneOf v doc).
+Proof.
+  intros S A. rewrite <- (spells_one_of_b_spec v doc A). unfold spells_one_of_b.
+  rewrite !mem_word_In. apply same_set_In. exact S.
+Qed.
+
+Ltac ascii_of_doc :=
+  let H := fresh in pose proof doc_tables_ascii as H;
+  repeat (apply andb_prop in H; destruct H as [H ?]); assumption.
+
+(* ================================================================ colours *)
+Lemma hex_color_spec v : hex_color v = true <-> HexColor v.
+Proof.
+  unfold hex_color, HexColor. destruct v as [|c ds].
+  - split; [discriminate | intros (ds & E & _); discriminate].
+  - split.
+    + intro H. apply andb_prop in H as [H F]. apply andb_prop in H as [C L].
+      apply N.eqb_eq in C. subst c. exists ds. split; [reflexivity|]. split.
+      * apply orb_prop in L as [L|L]; apply Nat.eqb_eq in L; auto.
+      * apply forallb_Forall. exact F.
+    + intros (ds' & E & L & F). inversion E; subst.
+      apply forallb_Forall in F. rewrite F.
+      assert (((length ds' =? 3)%nat || (length ds' =? 6)%nat) = true) as ->
+        by (destruct L as [L|L]; rewrite L; reflexivity).
+      reflexivity.
+Qed.
+
+Lemma strip_prefix_spec p : forall s t, strip_prefix p s = Some t <-> s = p ++ t.
+Proof.
+  induction p as [|a p IH]; intros s t; cbn [strip_prefix app].
+  - split; [intro E; inversion E; reflexivity | intros ->; reflexivity].
+  - destruct s as [|b s].
+    + split; [discriminate | discriminate].
+    + destruct (a =? b) eqn:E.
+      * apply N.eqb_eq in E. subst b. rewrite IH. split; [intros ->; reflexivity | intro H; inversion H; reflexivity].
+      * apply N.eqb_neq in E. split; [discriminate | intro H; inversion H; congruence].
+Qed.
+
+Lemma grad_tail_spec t :
+  grad_tail t = true <-> exists body, t = body ++ [41] /\ body <> [] /\ ~ In 10 body.
+Proof.
+  unfold grad_tail. split.
+  - destruct (rev t) as [|c b] eqn:R; [discriminate|].
+    intro H. apply andb_prop in H as [H F]. apply andb_prop in H as [C Ne].
+    apply N.eqb_eq in C. subst c.
+    assert (Et : t = rev b ++ [41]) by (rewrite <- (rev_involutive t), R; reflexivity).
+    exists (rev b). split; [exact Et|]. split.
+    + destruct b; [discriminate Ne|]. cbn [rev]. intro E. apply app_eq_nil in E as [_ E]. discriminate.
+    + intro Hin. apply in_rev in Hin. rewrite forallb_forall in F. specialize (F 10 Hin). discriminate.
+  - intros (body & -> & Ne & Nn). rewrite rev_app_distr. cbn [rev app].
+    change (41 =? 41) with true. cbn [andb].
+    assert (nonempty (rev body) = true) as ->.
+    { destruct body as [|x body]; [congruence|]. cbn [rev]. destruct (rev body); reflexivity. }
+    cbn [andb]. apply forallb_forall. intros x Hx. apply in_rev in Hx.
+    destruct (x =? 10) eqn:E; [|reflexivity]. apply N.eqb_eq in E. subst. contradiction.
+Qed.
+
+Lemma is_gradient_spec v : is_gradient v = true <-> GradientSyntax v.
+Proof.
+  unfold is_gradient, GradientSyntax. split.
+  - destruct (strip_prefix pre_linear v) as [t|] eqn:L.
+    + intro H. apply grad_tail_spec in H as (body & -> & Ne & Nn). apply strip_prefix_spec in L.
+      exists pre_linear, body. auto.
+    + destruct (strip_prefix pre_radial v) as [t|] eqn:R; [|discriminate].
+      intro H. apply grad_tail_spec in H as (body & -> & Ne & Nn). apply strip_prefix_spec in R.
+      exists pre_radial, body. auto.
+  - intros (pre & body & [-> | ->] & -> & Ne & Nn).
+    + assert (strip_prefix pre_linear (pre_linear ++ body ++ [41]) = Some (body ++ [41])) as ->
+        by (apply strip_prefix_spec; reflexivity).
+      apply grad_tail_spec. exists body. auto.
+    + assert (strip_prefix pre_linear (pre_radial ++ body ++ [41]) = None) as -> by reflexivity.
+      assert (strip_prefix pre_radial (pre_radial ++ body ++ [41]) = Some (body ++ [41])) as ->
+        by (apply strip_prefix_spec; reflexivity).
+      apply grad_tail_spec. exists body. auto.
+Qed.
+
+(* a gradient-shaped string is neither a named colour nor a hex code *)
+Lemma no_paren_at_15 : forallb (fun w => negb (nth 15 w 0 =? 40)) named_colors = true.
+Proof. vm_compute. reflexivity. Qed.
+
+Lemma gradient_not_named_hex v : is_gradient v = true -> named_color v = false /\ hex_color v = false.
+Proof.
+  intro H. apply is_gradient_spec in H as (pre & body & Hp & -> & _ & _).
+  assert (E : exists t, go_lower (pre ++ body ++ [41]) = pre ++ t /\ nth 15 (pre ++ t) 0 = 40 /\
+                        hex_color (pre ++ body ++ [41]) = false).
+  { destruct Hp as [-> | ->]; unfold pre_linear, pre_radial; cbn [app];
+      repeat (rewrite go_lower_ascii by reflexivity); eexists; (split; [reflexivity | split; reflexivity]). }
+  destruct E as (t & E & N15 & Hx). split; [|exact Hx].
+  unfold named_color. rewrite E. destruct (mem_word (pre ++ t) named_colors) eqn:M; [|reflexivity].
+  apply mem_word_In in M. pose proof no_paren_at_15 as P. rewrite forallb_forall in P.
+  specialize (P _ M). rewrite N15 in P. discriminate.
+Qed.
+
+Theorem valid_color_spec (g : list N -> bool) v : valid_color g v = true <-> DocColor g v.
+Proof.
+  unfold valid_color, DocColor.
+  assert (Nm : named_color v = true <-> SpellsOneOf v doc_named_colors).
+  { unfold named_color. apply table_spec; [exact named_colors_doc | ascii_of_doc]. }
+  destruct (is_gradient v) eqn:G.
+  - destruct (gradient_not_named_hex v G) as [N H]. apply is_gradient_spec in G. split.
+    + intro. right. right. auto.
+    + intros [S | [Hx | [_ Ok]]]; [| |exact Ok].
+      * apply Nm in S. congruence.
+      * apply hex_color_spec in Hx. congruence.
+  - split.
+    + intro H. apply orb_prop in H as [H|H]; [left; apply Nm; exact H | right; left; apply hex_color_spec; exact H].
+    + intros [S | [Hx | [Gs _]]].
+      * apply Nm in S. rewrite S. reflexivity.
+      * apply hex_color_spec in Hx. rewrite Hx. apply orb_true_r.
+      * apply is_gradient_spec in Gs. congruence.
+Qed.
+
+Lemma doc_color_b_spec (g : list N -> bool) v : doc_color_b g v = true <-> DocColor g v.
+Proof.
+  unfold doc_color_b, DocColor.
+  assert (A : ascii_table doc_named_colors = true) by ascii_of_doc.
+  rewrite !orb_true_iff, andb_true_iff, (spells_one_of_b_spec v _ A), hex_color_spec, is_gradient_spec. tauto.
+Qed.
+
+(* ================================================================ numbers: exact comparison *)
+Lemma pow_pos_fast_spec b p : pow_pos_fast b p = (b ^ Zpos p)%Z.
+Proof.
+  induction p as [p IH | p IH |]; cbn [pow_pos_fast].
+  - rewrite IH, Pos2Z.inj_xI. replace (2 * Z.pos p + 1)%Z with (1 + Z.pos p + Z.pos p)%Z by lia.
+    rewrite !Z.pow_add_r by lia. rewrite Z.pow_1_r. ring.
+  - rewrite IH, Pos2Z.inj_xO. replace (2 * Z.pos p)%Z with (Z.pos p + Z.pos p)%Z by lia.
+    rewrite Z.pow_add_r by lia. ring.
+  - rewrite Z.pow_1_r. reflexivity.
+Qed.
+
+Lemma zpow_spec b e : (0 <= e)%Z -> zpow b e = (b ^ e)%Z.
+Proof.
+  intro H. destruct e as [|p|p]; cbn [zpow].
+  - reflexivity.
+  - apply pow_pos_fast_spec.
+  - lia.
+Qed.
+
+Definition base_of (hex : bool) : Z := if hex then 2%Z else 10%Z.
+
+Lemma base_ge2 hex : (2 <= base_of hex)%Z.
+Proof. destruct hex; cbn; lia. Qed.
+
+Lemma num_le_exact_unfold hex m e a k : (0 <= k)%Z ->
+  num_le_exact hex m e a k =
+  if (0 <=? e)%Z then (Z.of_N m * base_of hex ^ e * 2 ^ k <=? a)%Z
+  else (Z.of_N m * 2 ^ k <=? a * base_of hex ^ (- e))%Z.
+Proof.
+  intro Hk. unfold num_le_exact, base_of. cbv zeta.
+  destruct (0 <=? e)%Z eqn:E.
+  - rewrite !zpow_spec by lia. reflexivity.
+  - rewrite !zpow_spec by lia. reflexivity.
+Qed.
+
+Lemma pow2_1075_le_pow10_400 : (2 ^ 1075 <= 10 ^ 400)%Z.
+Proof. apply Z.leb_le. vm_compute. reflexivity. Qed.
+
+(* the shortcuts of [num_le] agree with the exact comparison for the bounds d2's tests need *)
+Lemma num_le_exact_eq hex m e a k :
+  (1 <= a <= 2 ^ (k + 1))%Z -> (0 <= k <= 1075)%Z -> num_le hex m e a k = num_le_exact hex m e a k.
+Proof.
+  intros Ha Hk. unfold num_le. rewrite num_le_exact_unfold by lia.
+  pose proof (base_ge2 hex) as HB.
+  assert (P2k : (0 < 2 ^ k)%Z) by (apply Z.pow_pos_nonneg; lia).
+  destruct (m =? 0) eqn:M0.
+  { apply N.eqb_eq in M0. subst m. change (Z.of_N 0) with 0%Z.
+    destruct (0 <=? e)%Z eqn:E; symmetry; apply Z.leb_le.
+    - lia.
+    - assert (0 < base_of hex ^ (- e))%Z by (apply Z.pow_pos_nonneg; lia). nia. }
+  apply N.eqb_neq in M0. assert (Hm : (1 <= Z.of_N m)%Z) by lia.
+  destruct (4 <=? e)%Z eqn:E4.
+  { apply Z.leb_le in E4. assert ((0 <=? e)%Z = true) as -> by lia.
+    symmetry. apply Z.leb_gt.
+    assert (H16 : (16 <= base_of hex ^ e)%Z).
+    { change 16%Z with (2 ^ 4)%Z.
+      apply Z.le_trans with (2 ^ e)%Z; [apply Z.pow_le_mono_r; lia | apply Z.pow_le_mono_l; lia]. }
+    assert (H2 : (2 ^ (k + 1) = 2 * 2 ^ k)%Z) by (rewrite Z.pow_add_r by lia; rewrite Z.pow_1_r; ring).
+    assert (H3 : (16 <= Z.of_N m * base_of hex ^ e)%Z) by nia.
+    assert (H4 : (16 * 2 ^ k <= Z.of_N m * base_of hex ^ e * 2 ^ k)%Z) by (apply Z.mul_le_mono_nonneg_r; lia).
+    lia. }
+  apply Z.leb_gt in E4.
+  destruct (e + Z.of_N (N.size m) <=? (if hex then -1075 else -400))%Z eqn:S; [|reflexivity].
+  apply Z.leb_le in S.
+  pose proof (N.size_gt m) as Sz. apply N2Z.inj_lt in Sz. rewrite N2Z.inj_pow in Sz. change (Z.of_N 2) with 2%Z in Sz.
+  set (s := Z.of_N (N.size m)) in *. assert (Hs : (0 <= s)%Z) by (unfold s; lia).
+  assert (He : (e < 0)%Z) by (destruct hex; lia).
+  assert ((0 <=? e)%Z = false) as -> by lia.
+  symmetry. apply Z.leb_le.
+  assert (G : (2 ^ s * 2 ^ k <= base_of hex ^ (- e))%Z).
+  { destruct hex; cbn [base_of] in *.
+    - rewrite <- Z.pow_add_r by lia. apply Z.pow_le_mono_r; lia.
+    - apply Z.le_trans with (10 ^ (s + 400))%Z; [|apply Z.pow_le_mono_r; lia].
+      rewrite Z.pow_add_r by lia.
+      assert (A1 : (2 ^ s <= 10 ^ s)%Z) by (apply Z.pow_le_mono_l; lia).
+      assert (A2 : (2 ^ k <= 2 ^ 1075)%Z) by (apply Z.pow_le_mono_r; lia).
+      pose proof pow2_1075_le_pow10_400 as A3.
+      assert (0 < 2 ^ s)%Z by (apply Z.pow_pos_nonneg; lia).
+      apply Z.mul_le_mono_nonneg; lia. }
+  assert (0 < base_of hex ^ (- e))%Z by (apply Z.pow_pos_nonneg; lia).
+  assert (Z.of_N m * 2 ^ k <= 2 ^ s * 2 ^ k)%Z by (apply Z.mul_le_mono_nonneg_r; lia).
+  assert (1 * base_of hex ^ (- e) <= a * base_of hex ^ (- e))%Z by (apply Z.mul_le_mono_nonneg_r; lia).
+  lia.
+Qed.
+
+Lemma fnum_abs_unfold hex m e :
+  fnum_abs hex m e =
+  if (0 <=? e)%Z then inject_Z (Z.of_N m * base_of hex ^ e)
+  else Qmake (Z.of_N m) (Z.to_pos (base_of hex ^ (- e))).
+Proof. reflexivity. Qed.
+
+Lemma fnum_abs_nonneg hex m e : (0 <= fnum_abs hex m e)%Q.
+Proof.
+  rewrite fnum_abs_unfold. pose proof (base_ge2 hex).
+  destruct (0 <=? e)%Z eqn:E; unfold Qle; cbn [Qnum Qden inject_Z].
+  - assert (0 < base_of hex ^ e)%Z by (apply Z.pow_pos_nonneg; lia). nia.
+  - lia.
+Qed.
+
+Lemma num_le_exact_Q hex m e a k p : (0 <= k)%Z -> Z.pos p = (2 ^ k)%Z ->
+  (num_le_exact hex m e a k = true <-> (fnum_abs hex m e <= Qmake a p)%Q).
+Proof.
+  intros Hk Hp. rewrite num_le_exact_unfold by exact Hk. rewrite fnum_abs_unfold.
+  pose proof (base_ge2 hex).
+  destruct (0 <=? e)%Z eqn:E; unfold Qle; cbn [Qnum Qden inject_Z]; rewrite Hp.
+  - rewrite Z.leb_le. lia.
+  - rewrite Z.leb_le. rewrite Z2Pos.id by (apply Z.pow_pos_nonneg; lia). reflexivity.
+Qed.
+
+Lemma pos_2_53 : Z.pos (2 ^ 53) = (2 ^ 53)%Z.  Proof. reflexivity. Qed.
+Lemma pos_2_1075 : Z.pos (2 ^ 1075) = (2 ^ 1075)%Z.  Proof. vm_compute. reflexivity. Qed.
+
+Lemma le_one_plus_spec hex m e :
+  num_le hex m e (2 ^ 53 + 1) 53 = true <-> (fnum_abs hex m e <= one_plus_half_ulp)%Q.
+Proof.
+  rewrite num_le_exact_eq; [| change (53 + 1)%Z with 54%Z; split; [vm_compute; discriminate | vm_compute; discriminate] | lia].
+  apply num_le_exact_Q; [lia | exact pos_2_53].
+Qed.
+
+Lemma le_tiny_spec hex m e :
+  num_le hex m e 1 1075 = true <-> (fnum_abs hex m e <= half_min_subnormal)%Q.
+Proof.
+  rewrite num_le_exact_eq; [| split; [lia | pose proof (Z.pow_pos_nonneg 2 (1075 + 1)); lia] | lia].
+  apply num_le_exact_Q; [lia | exact pos_2_1075].
+Qed.
+
+Lemma le_one_spec hex m e : num_le hex m e 1 0 = true <-> (fnum_abs hex m e <= 1)%Q.
+Proof.
+  rewrite num_le_exact_eq; [| cbn; lia | lia].
+  apply (num_le_exact_Q hex m e 1 0 1%positive); [lia | reflexivity].
+Qed.
+
+(* ================================================================ opacity *)
+Lemma Qmake_nonneg a p : (0 <= a)%Z -> (0 <= Qmake a p)%Q.
+Proof. intro H. unfold Qle. cbn [Qnum Qden]. lia. Qed.
+
+Lemma one_le_one_plus_half_ulp : (1 <= one_plus_half_ulp)%Q.
+Proof.
+  assert (E : one_plus_half_ulp = Qmake (Z.pos (2 ^ 53) + 1) (2 ^ 53)) by reflexivity.
+  rewrite E. generalize (2 ^ 53)%positive. intro p. unfold Qle. cbn [Qnum Qden]. lia.
+Qed.
+
+Lemma half_min_subnormal_nonneg : (0 <= half_min_subnormal)%Q.
+Proof. unfold half_min_subnormal. apply Qmake_nonneg. lia. Qed.
+
+Lemma rounds_into_unit_b_spec hex neg m e :
+  rounds_into_unit_b hex neg m e = true <-> RoundsIntoUnit (fnum_Q hex neg m e).
+Proof.
+  unfold rounds_into_unit_b, RoundsIntoUnit, fnum_Q.
+  pose proof (fnum_abs_nonneg hex m e) as P.
+  pose proof half_min_subnormal_nonneg as T0.
+  assert (U0 : (0 <= one_plus_half_ulp)%Q) by (apply Qle_trans with 1%Q; [discriminate | exact one_le_one_plus_half_ulp]).
+  destruct neg.
+  - rewrite le_tiny_spec. split.
+    + intro H. split; [apply Qopp_le_compat; exact H|].
+      apply Qle_trans with 0%Q; [|exact U0]. apply (Qopp_le_compat 0 (fnum_abs hex m e)) in P. exact P.
+    + intros [H _]. apply Qopp_le_compat in H. rewrite !Qopp_involutive in H. exact H.
+  - rewrite le_one_plus_spec. split.
+    + intro H. split; [|exact H]. apply Qle_trans with 0%Q; [|exact P].
+      apply (Qopp_le_compat 0 half_min_subnormal) in T0. exact T0.
+    + intros [_ H]. exact H.
+Qed.
+
+Lemma doc_opacity_rounded_b_spec v : doc_opacity_rounded_b v = true <-> DocOpacityRounded v.
+Proof.
+  unfold doc_opacity_rounded_b, DocOpacityRounded, NumberLit. split.
+  - destruct (parse_float v) as [[| |hex neg m e]|] eqn:E; try discriminate.
+    intro H. apply rounds_into_unit_b_spec in H. exists (fnum_Q hex neg m e). split; [|exact H].
+    exists hex, neg, m, e. auto.
+  - intros (x & (hex & neg & m & e & E & ->) & R). rewrite E. apply rounds_into_unit_b_spec. exact R.
+Qed.
+
+(* the acceptance test of Style.Apply("opacity"): all strings *)
+Theorem opacity_accept_iff (g : list N -> bool) c v :
+  accepts g c KOpacity v = true <-> parse_float v = Some FNaN \/ DocOpacityRounded v.
+Proof.
+  rewrite <- doc_opacity_rounded_b_spec. unfold doc_opacity_rounded_b. cbn [accepts].
+  destruct (parse_float v) as [[|neg|hex neg m e]|] eqn:E.
+  - cbn. split; auto.
+  - destruct neg; cbn; split; try discriminate; intros [H|H]; discriminate.
+  - cbn [flt_lt0 flt_gt1]. unfold rounds_into_unit_b.
+    destruct neg; cbn [negb andb orb].
+    + rewrite orb_false_r, negb_involutive. split; [auto | intros [H|H]; [discriminate | exact H]].
+    + rewrite negb_involutive. split; [auto | intros [H|H]; [discriminate | exact H]].
+  - split; [discriminate | intros [H|H]; discriminate].
+Qed.
+
+Lemma strict_unit_rounds x : (0 <= x)%Q -> (x <= 1)%Q -> RoundsIntoUnit x.
+Proof.
+  intros H0 H1. split.
+  - apply Qle_trans with 0%Q; [|exact H0].
+    apply (Qopp_le_compat 0 half_min_subnormal). exact half_min_subnormal_nonneg.
+  - apply Qle_trans with 1%Q; [exact H1 | exact one_le_one_plus_half_ulp].
+Qed.
+
+Theorem opacity_complete (g : list N -> bool) c v : DocOpacity v -> accepts g c KOpacity v = true.
+Proof.
+  intros (x & L & H0 & H1). apply opacity_accept_iff. right. exists x. split; [exact L|].
+  apply strict_unit_rounds; assumption.
+Qed.
+
+Definition str_NaN : list N := [78; 97; 78].
+
+Theorem opacity_refuted (g : list N -> bool) :
+  exists v, accepts g CObj KOpacity v = true /\ ~ DocOpacityRounded v /\ ~ DocOpacity v.
+Proof.
+  exists str_NaN. split; [reflexivity|]. split.
+  - intros (x & (hex & neg & m & e & E & _) & _). vm_compute in E. discriminate.
+  - intros (x & (hex & neg & m & e & E & _) & _). vm_compute in E. discriminate.
+Qed.
+
+Theorem opacity_guarded (g : list N -> bool) c v :
+  parse_float v <> Some FNaN -> (accepts g c KOpacity v = true <-> DocOpacityRounded v).
+Proof. intro H. rewrite opacity_accept_iff. tauto. Qed.
+
+(* ================================================================ decider = documented domain *)
+Lemma in_doc_theme_b z : existsb (Z.eqb z) doc_theme_ids = true <-> In z doc_theme_ids.
+Proof. apply existsb_Zeqb_In. Qed.
+
+Ltac int_family := apply int_in_b_spec; intro z; cbn beta; lia.
+
+Theorem doc_b_spec (g : list N -> bool) c k v : doc_b g c k v = true <-> DocDomain g c k v.
+Proof.
+  assert (A := doc_tables_ascii).
+  repeat (apply andb_prop in A; destruct A as [A ?]).
+  destruct k; cbn [doc_b DocDomain].
+  - apply doc_opacity_rounded_b_spec.
+  - apply doc_color_b_spec.
+  - apply doc_color_b_spec.
+  - apply spells_one_of_b_spec; assumption.
+  - int_family.
+  - int_family.
+  - int_family.
+  - apply mem_word_In.
+  - apply mem_word_In.
+  - apply mem_word_In.
+  - apply spells_one_of_b_spec; assumption.
+  - int_family.
+  - apply doc_color_b_spec.
+  - apply mem_word_In.
+  - apply mem_word_In.
+  - apply mem_word_In.
+  - apply mem_word_In.
+  - apply mem_word_In.
+  - apply mem_word_In.
+  - apply spells_one_of_b_spec; assumption.
+  - int_family.
+  - int_family.
+  - int_family.
+  - int_family.
+  - int_family.
+  - int_family.
+  - int_family.
+  - int_family.
+  - int_family.
+  - apply spells_one_of_b_spec; assumption.
+  - destruct c; rewrite ?orb_true_iff, !spells_one_of_b_spec by assumption; tauto.
+  - apply int_in_b_spec. intro z. apply in_doc_theme_b.
+  - apply int_in_b_spec. intro z. apply in_doc_theme_b.
+  - apply int_in_b_spec. intro z. tauto.
+  - apply mem_word_In.
+  - apply mem_word_In.
+Qed.
+
+(* ================================================================ accept <-> documented domain *)
+Definition clean (k : kw) : bool :=
+  match k with KWidth | KHeight | KOpacity | KShape => false | _ => true end.
+
+Ltac int_accept := rewrite atoi_in_is_int_in_b; apply int_in_b_spec; intro z; cbn beta; lia.
+
+Lemma theme_accept v :
+  atoi_in v (fun z => existsb (Z.eqb z) theme_ids) = true <-> IntIn v (fun z => In z doc_theme_ids).
+Proof.
+  rewrite atoi_in_is_int_in_b. apply int_in_b_spec. intro z. rewrite existsb_Zeqb_In. apply theme_ids_In.
+Qed.
+
+Theorem accept_iff_in_domain (g : list N -> bool) c k v :
+  clean k = true -> (accepts g c k v = true <-> DocDomain g c k v).
+Proof.
+  assert (A := doc_tables_ascii).
+  repeat (apply andb_prop in A; destruct A as [A ?]).
+  destruct k; cbn [clean]; try discriminate; intros _; cbn [accepts DocDomain].
+  - apply valid_color_spec.
+  - apply valid_color_spec.
+  - apply table_spec; [exact fill_patterns_doc | assumption].
+  - int_accept.
+  - int_accept.
+  - int_accept.
+  - apply is_bool_spec.
+  - apply is_bool_spec.
+  - apply is_bool_spec.
+  - apply table_spec; [exact fonts_doc | assumption].
+  - int_accept.
+  - apply valid_color_spec.
+  - apply is_bool_spec.
+  - apply is_bool_spec.
+  - apply is_bool_spec.
+  - apply is_bool_spec.
+  - apply is_bool_spec.
+  - apply is_bool_spec.
+  - apply table_spec; [exact text_transforms_doc | assumption].
+  - int_accept.
+  - int_accept.
+  - int_accept.
+  - int_accept.
+  - int_accept.
+  - int_accept.
+  - int_accept.
+  - apply table_spec; [exact directions_doc | assumption].
+  - apply theme_accept.
+  - apply theme_accept.
+  - rewrite atoi_in_is_int_in_b. apply int_in_b_spec. intro z. tauto.
+  - apply is_bool_spec.
+  - apply is_bool_spec.
+Qed.
+
+(* ---------------------------------------------------------------- width / height *)
+Definition is_size (k : kw) : bool := match k with KWidth | KHeight => true | _ => false end.
+
+Theorem size_accept_iff (g : list N -> bool) c k v :
+  is_size k = true -> (accepts g c k v = true <-> IntIn v (fun _ => True)).
+Proof.
+  destruct k; try discriminate; intros _; cbn [accepts];
+    rewrite atoi_in_is_int_in_b; apply int_in_b_spec; intro z; tauto.
+Qed.
+
+Definition str_minus5 : list N := [45; 53].
+
+Lemma IntLit_minus5 : IntLit str_minus5 (-5)%Z.
+Proof.
+  change (-5)%Z with (- Z.of_N (pos_val [53]))%Z. apply IL_minus. split; [discriminate|].
+  constructor; [reflexivity | constructor].
+Qed.
+
+Theorem size_refuted (g : list N -> bool) :
+  exists v, accepts g CObj KWidth v = true /\ accepts g CObj KHeight v = true /\
+            ~ DocDomain g CObj KWidth v /\ ~ DocDomain g CObj KHeight v.
+Proof.
+  exists str_minus5. split; [reflexivity|]. split; [reflexivity|].
+  assert (H : ~ IntIn str_minus5 (fun z => 0 <= z)%Z).
+  { intros (z & L & _ & Hz). pose proof (IntLit_fun _ _ _ L IntLit_minus5). lia. }
+  split; exact H.
+Qed.
+
+Theorem size_guarded (g : list N -> bool) c k v :
+  is_size k = true -> (forall z, IntLit v z -> (0 <= z)%Z) ->
+  (accepts g c k v = true <-> DocDomain g c k v).
+Proof.
+  intros Hk Hnn. rewrite (size_accept_iff g c k v Hk).
+  assert (D : DocDomain g c k v = IntIn v (fun z => 0 <= z)%Z) by (destruct k; try discriminate; reflexivity).
+  rewrite D. unfold IntIn. split.
+  - intros (z & L & R & _). exists z. auto.
+  - intros (z & L & R & _). exists z. auto.
+Qed.
+
+(* ---------------------------------------------------------------- shape *)
+Lemma is_shape_guarded v : v <> [] -> ~ In 197 v -> (is_shape v = true <-> SpellsOneOf v doc_shapes).
+Proof.
+  intros Hne H197. unfold is_shape.
+  pose proof (go_lower_nonempty v Hne) as Hl.
+  pose proof (go_lower_no_long_s_len (length v) v (le_n _) H197) as Hs.
+  assert (A : ascii_table doc_shapes = true) by ascii_of_doc.
+  destruct (go_lower v) as [|r l] eqn:E; [congruence|].
+  rewrite fold_s_id by exact Hs. rewrite <- E. apply table_spec; [exact shapes_doc | exact A].
+Qed.
+
+Lemma is_arrowhead_spec v : is_arrowhead v = true <-> SpellsOneOf v doc_arrowheads.
+Proof. unfold is_arrowhead. apply table_spec; [exact arrowheads_doc | ascii_of_doc]. Qed.
+
+Theorem shape_object_guarded (g : list N -> bool) v :
+  v <> [] -> ~ In 197 v -> (accepts g CObj KShape v = true <-> DocDomain g CObj KShape v).
+Proof. intros. cbn [accepts DocDomain]. apply is_shape_guarded; assumption. Qed.
+
+(* on arrowheads (and connections) the compiler also lets every object shape through *)
+Theorem shape_arrowhead_guarded (g : list N -> bool) v :
+  v <> [] -> ~ In 197 v ->
+  (accepts g CArrow KShape v = true <-> SpellsOneOf v doc_arrowheads \/ SpellsOneOf v doc_shapes).
+Proof.
+  intros Hne H197. cbn [accepts]. rewrite orb_true_iff, is_arrowhead_spec, (is_shape_guarded v Hne H197). tauto.
+Qed.
+
+Definition str_long_s_quare : list N := [197; 191; 113; 117; 97; 114; 101].   (* "ſquare" *)
+Definition str_cloud : list N := [99; 108; 111; 117; 100].
+
+Lemma not_spells_by_decider v tbl :
+  ascii_table tbl = true -> spells_one_of_b v tbl = false -> ~ SpellsOneOf v tbl.
+Proof. intros A H S. apply (spells_one_of_b_spec v tbl A) in S. congruence. Qed.
+
+Theorem shape_object_refuted (g : list N -> bool) :
+  (accepts g CObj KShape str_long_s_quare = true /\ ~ DocDomain g CObj KShape str_long_s_quare /\
+   stored CObj KShape str_long_s_quare = str_long_s_quare) /\
+  (accepts g CObj KShape [] = true /\ ~ DocDomain g CObj KShape []).
+Proof.
+  assert (A : ascii_table doc_shapes = true) by ascii_of_doc.
+  split; [split; [reflexivity | split; [|reflexivity]] | split; [reflexivity|]];
+    cbn [DocDomain]; apply not_spells_by_decider; try exact A; vm_compute; reflexivity.
+Qed.
+
+Theorem shape_arrowhead_refuted (g : list N -> bool) :
+  accepts g CArrow KShape str_cloud = true /\ ~ DocDomain g CArrow KShape str_cloud.
+Proof.
+  split; [reflexivity|]. cbn [DocDomain]. apply not_spells_by_decider; [ascii_of_doc | vm_compute; reflexivity].
+Qed.
+
+Theorem shape_arrowhead_complete (g : list N -> bool) v :
+  DocDomain g CArrow KShape v -> accepts g CArrow KShape v = true.
+Proof. cbn [DocDomain accepts]. intro H. apply is_arrowhead_spec in H. rewrite H. apply orb_true_r. Qed.
